@@ -157,9 +157,9 @@ func replayNativeN(P *Program, verif string, cex *cexFile, cexPath string, count
 	if err != nil {
 		return replayOutcome{buildFail: true, output: err.Error()}
 	}
-	ctx, cancel := context.WithTimeout(context.Background(), 400*time.Second)
+	ctx, cancel := context.WithTimeout(context.Background(), 300*time.Second)
 	defer cancel()
-	cmd := exec.CommandContext(ctx, "go", "test", "-tags", "verif", "-vet=off", "-count="+strconv.Itoa(count), "-timeout", "300s",
+	cmd := exec.CommandContext(ctx, "go", "test", "-tags", "verif", "-vet=off", "-count="+strconv.Itoa(count), "-timeout", "60s",
 		"-overlay", ovPath, "-run", "^TestVerifReplay$", ".")
 	cmd.Dir = pkgDir
 	cmd.Env = append(os.Environ(), "GOFLAGS=-mod=mod", "GOPROXY=off", "GOSUMDB=off", "GOTOOLCHAIN=local",
